@@ -24,6 +24,80 @@ ALL_FNS = ['endlock', 'lock', 'threshold', 'window', 'getslice', 'concatenate', 
 # functions whose call needs nothing but the series column itself (a prelude entry can run them on the host of the case)
 S_ONLY = [f for f in ALL_FNS if f not in ('lock', 'concatenate', 'normalize_time', 'baseline')]
 LCM = 27720          # lcm(1..12): block means / slopes of integer multiples of it are integers
+# Pending finding (unchanged /repo): a user-supplied operation that is allowed to modify the array it is given reaches
+# the storage of the INPUT column on two paths: (a) reduce(series, operation=f) with an f that does not accept `axis`
+# (the per-row fallback `for i, val in enumerate(series): col[i] = operation(val)` hands over row VIEWS of series._seq);
+# (b) downsample(series, by, fnc=f) (`fnc(a.reshape(-1, by), axis=1)` on a row view).  After the call the input series
+# is sorted / NaN.  reduce with an operation that accepts axis, and baseline with any reduce_fnc, are safe (they work
+# on copies) and are in the default stream.  True adds (a) and (b) to the family of mutating operations.
+INCLUDE_PENDING_FINDINGS_MUTATING_OPS = False
+# User-supplied operations that are ALLOWED to modify / reorder the array they are given (name -> the pure operation
+# they compute, whether they accept `axis`).  'median' = nanmedian, 'mean' = nanmean, 'npmedian' = np.median (NaN as
+# soon as the row holds a NaN).
+MUT_OPS = {
+    'nanmedian_ow': ('median', True),        # functools.partial(np.nanmedian, overwrite_input=True)
+    'median_ow': ('npmedian', True),         # functools.partial(np.median, overwrite_input=True)
+    'sort_mean': ('mean', True),             # sorts its argument in place, then nanmean
+    'sort_median': ('median', True),         # sorts its argument in place, then nanmedian
+    'nan_mean': ('mean', True),              # nanmean, then writes NaN into every cell of its argument
+    'rev_median': ('median', True),          # reverses its argument in place along the depth, then nanmedian
+    'sort_mean_noaxis': ('mean', False),     # the same without an `axis` parameter (reduce falls back to row by row)
+    'nan_median_noaxis': ('median', False),
+}
+MUT_AXIS = sorted(k for k, v in MUT_OPS.items() if v[1])
+MUT_NOAXIS = sorted(k for k, v in MUT_OPS.items() if not v[1])
+
+
+def make_op(name):
+    """the callable of a MUT_OPS entry"""
+    import functools
+    import numpy as np
+    if name == 'nanmedian_ow':
+        return functools.partial(np.nanmedian, overwrite_input=True)
+    if name == 'median_ow':
+        return functools.partial(np.median, overwrite_input=True)
+    if name == 'sort_mean':
+        def f(a, axis):
+            a = np.asarray(a)
+            a.sort(axis=axis)
+            return np.nanmean(a, axis=axis)
+    elif name == 'sort_median':
+        def f(a, axis):
+            a = np.asarray(a)
+            a.sort(axis=axis)
+            return np.nanmedian(a, axis=axis)
+    elif name == 'nan_mean':
+        def f(a, axis):
+            a = np.asarray(a)
+            r = np.array(np.nanmean(a, axis=axis))
+            a[...] = np.nan
+            return r
+    elif name == 'rev_median':
+        def f(a, axis):
+            a = np.asarray(a)
+            a[...] = a[..., ::-1].copy()
+            return np.nanmedian(a, axis=axis)
+    elif name == 'sort_mean_noaxis':
+        def f(a):
+            a = np.asarray(a)
+            a.sort()
+            return float(np.nanmean(a))
+    elif name == 'nan_median_noaxis':
+        def f(a):
+            a = np.asarray(a)
+            r = float(np.nanmedian(a))
+            a[...] = np.nan
+            return r
+    else:
+        raise AssertionError(name)
+    return f
+
+
+def op_pure(op):
+    """the pure operation ('mean' | 'median' | 'npmedian') computed by the `operation` / `reduce_fnc` called `op`"""
+    if op in MUT_OPS:
+        return MUT_OPS[op][0]
+    return 'median' if op == 'median' else 'mean'
 
 
 # ---------------------------------------------------------------------- literals
@@ -103,6 +177,14 @@ def ref_median(r):
     return v[n // 2] if n % 2 else (v[n // 2 - 1] + v[n // 2]) / 2
 
 
+def ref_npmedian(r):
+    """np.median: NaN as soon as the row holds a NaN"""
+    return None if any(isnan(x) for x in r) else ref_median(r)
+
+
+REDUCERS = {'mean': ref_mean, 'median': ref_median, 'npmedian': ref_npmedian}
+
+
 def ref_downsample(r, by):
     return [ref_mean(r[k * by:(k + 1) * by]) for k in range(len(r) // by)]
 
@@ -134,7 +216,7 @@ def pyslice(r, lo, hi):
 
 
 def ref_baseline(r, bl, lo, hi, red, divisive):
-    b = (ref_mean if red == 'mean' else ref_median)(pyslice(bl, lo, hi if hi is not None else len(bl)))
+    b = REDUCERS[red](pyslice(bl, lo, hi if hi is not None else len(bl)))
     out = []
     for x in r:
         if isnan(x) or b is None:
@@ -446,6 +528,8 @@ class Run(object):
             c.depth = p['depth']
             return c
         if fn == 'downsample':
+            if p.get('fnc'):
+                return srs.downsample(s, by=p['by'], fnc=make_op(p['fnc']))
             return srs.downsample(s, by=p['by'])
         if fn == 'interpolate':
             return srs.interpolate(s)
@@ -455,10 +539,14 @@ class Run(object):
                 return srs.reduce(s)
             if op == 'noaxis':
                 return srs.reduce(s, operation=lambda a: float(np.nanmean(a)))
+            if op in MUT_OPS:
+                return srs.reduce(s, operation=make_op(op))
             return srs.reduce(s, operation=np.nanmean if op == 'mean' else np.nanmedian)
         if fn == 'baseline':
             kw = {}
-            if p.get('red') == 'mean':
+            if p.get('rop'):
+                kw['reduce_fnc'] = make_op(p['rop'])
+            elif p.get('red') == 'mean':
                 kw['reduce_fnc'] = np.nanmean
             if p.get('method') is not None:
                 kw['method'] = p['method']
@@ -510,6 +598,17 @@ class Run(object):
         before = self.snapshot(dm)
         given = self.col(work, 's')
         inrows = [tolist(given[i]) for i in range(len(given))] if given.depth else [[] for _ in range(len(given))]
+        taken = []      # np.asarray(col) / np.array(col) of every series column taken BEFORE the call: not live views
+        if fn != 'setdepth':
+            with warnings.catch_warnings():
+                warnings.simplefilter('ignore')
+                for name in sorted(self.all_series(self.inp)):
+                    for how, mk in (('np.asarray', self.np.asarray), ('np.array', self.np.array)):
+                        try:
+                            a = mk(self.col(work, name))
+                            taken.append((how, name, a, a.tobytes()))
+                        except Exception:       # noqa -- not this property's business
+                            pass
         try:
             with warnings.catch_warnings():
                 warnings.simplefilter('ignore')
@@ -519,6 +618,10 @@ class Run(object):
         after = self.snapshot(dm)
         if before != after:
             fails.append('%s changed its input (column data, depth, row ids or the host table)' % fn)
+        for how, name, a, was in taken:
+            if a.tobytes() != was:
+                fails.append('%s(dm.%s) taken before the call of %s was changed by the call (it shares the storage of the '
+                             'column the call worked on)' % (how, name, fn))
         out = {'in': inrows, 'rows': None, 'exc': None, 'zp': None, 'fails': fails,
                'ks': [int(v) for v in self.col(dm, 'k')]}
         if isinstance(res, Exception):
@@ -685,7 +788,15 @@ class C18:
             'plainly or by appending rows after the columns existed (dm.length, <<), cutting a longer table, indexing / '
             'selecting / sorting / shuffling another table (the series columns created before or after that); the source must hold exactly the rows written to it and all the '
             'checks above apply (the result holds NaN where there is no data whatever the source pads with; the depth '
-            'setter pads with 0 for a defaultnan=False column, with NaN otherwise).  non-trivial = the output differs from the input column; distinct by (function, parameters, rows, '
+            'setter pads with 0 for a defaultnan=False column, with NaN otherwise).  User-supplied operations that are allowed '
+            'to modify / reorder the array they are given: reduce(operation=) and baseline(reduce_fnc=) with '
+            'functools.partial(np.nanmedian / np.median, overwrite_input=True), functions that sort their argument in place, '
+            'reverse it in place or write NaN into every cell of it before / after reducing (with and, for baseline, without '
+            'an axis parameter), also on sources with a history and after a prelude; and any of the 18 functions after 1-2 '
+            'such reduce calls on its own host table: the result is that of the pure operation (nanmean / nanmedian / '
+            'np.median), every column of the host (signal, baseline, other columns) reads bit for bit as before the call, and '
+            'np.asarray(col) / np.array(col) of every series column taken before the call are unchanged after it (not live '
+            'views of the storage the call works on); checked for every case of every family.  non-trivial = the output differs from the input column; distinct by (function, parameters, rows, '
             'host, prelude, source configuration)')
     trusted_base = [
         'Coq 8.16.1 kernel (coqc; vm_compute for evaluating cases; no native_compute)',
@@ -714,6 +825,10 @@ class C18:
         'host-table reordering / selection itself (dm[positions], ops.sort, dm.k == set) is the subject of C01/C02/C10; here the '
         'derived host is read back and used as the input of the second run',
         'the series column passed in is a column of its DataMatrix (not a detached slice of it)',
+        'user-supplied operations reach their argument through NumPy (np.asarray(a) / a NumPy reduction), not through '
+        'private attributes of the column; pending finding kept out of the default stream '
+        '(INCLUDE_PENDING_FINDINGS_MUTATING_OPS): reduce with a mutating operation WITHOUT an axis parameter and '
+        'downsample with a mutating fnc are handed row views of the input storage and change the input',
         'defaultnan=False is a setting of the SOURCE column (its own new cells -- depth setter, appended rows -- are 0); '
         'the columns returned by the series functions hold NaN where there is no data whatever that setting is (lock, '
         'normalize_time, concatenate, endlock, ... allocate a fresh column); every source history ends with the column '
@@ -822,12 +937,18 @@ class C18:
                 'host:' + (inp.get('host') or {'kind': 'id'})['kind']] + (['malformed'] if malformed else [])
         for r in inp['rows']:
             tags.append('nan:' + nan_class(r))
+        mop = (inp.get('params') or {}).get('op') if fn == 'reduce' else (inp.get('params') or {}).get(
+            'rop' if fn == 'baseline' else 'fnc')
+        if mop in MUT_OPS:
+            tags += ['mutating-operation', 'operation:%s:%s' % (fn, mop)]
         for name, cfg in sorted((inp.get('src') or {}).items()):
             tags += ['src:' + cfg.get('hist', 'plain'), 'src-defaultnan:%s' % cfg.get('dn', True),
                      'src:%s:%s%s' % (fn, cfg.get('hist', 'plain'), '' if cfg.get('dn', True) else ':defaultnan=False')]
         if inp.get('table'):
             tags.append('table:' + inp['table']['kind'])
         for e in inp.get('prelude') or []:
+            if any(v in MUT_OPS for v in (e.get('params') or {}).values() if isinstance(v, str)):
+                tags.append('before:mutating-operation')
             tags += ['history', 'before:' + e['fn'], 'before-on:' + ('host' if e.get('on') == 'same' else 'same-rows' if e.get(
                 'rows') == inp['rows'] else 'other-rows')]
         return {
@@ -903,9 +1024,9 @@ class C18:
                 return None, None, 'tol'
             return 'o_interpolate %s %s' % (S, obs), 'm_interpolate %s %s' % (S, obs), 'exact'
         if fn == 'reduce':
-            op = p.get('op', 'mean')
-            red = 'RMedian' if op == 'median' else 'RMean'
-            if not exact:
+            pure = op_pure(p.get('op', 'mean'))
+            red = 'RMedian' if pure == 'median' else 'RMean'
+            if not exact or pure not in ('mean', 'median'):
                 return None, None, 'tol'
             ob = 'None' if o['rows'] is None else '(Some %s)' % rowlit([r[0] for r in o['rows']])
             return 'o_reduce %s %s %s' % (red, S, ob), 'm_reduce %s %s %s' % (red, S, ob), 'exact'
@@ -913,8 +1034,8 @@ class C18:
             bl = [inp['more'][0][k] for k in ks]
             lo, hi = p.get('bl_start', -100), p.get('bl_end')
             div = p.get('method') == 'divisive'
-            red = p.get('red', 'median')
-            ok = exact
+            red = op_pure(p['rop']) if p.get('rop') else p.get('red', 'median')
+            ok = exact and red in ('mean', 'median')
             for r, b in zip(rows, bl):
                 ref, bv = ref_baseline(r, b, lo, hi, red, div)
                 if bv is not None and (not fexact(bv) or (div and bv == 0)):
@@ -960,13 +1081,14 @@ class C18:
         elif fn == 'interpolate':
             cmp_rows([ref_interpolate(r) for r in rows], 'interpolate')
         elif fn == 'reduce':
-            f = ref_median if p.get('op') == 'median' else ref_mean
+            f = REDUCERS[op_pure(p.get('op', 'mean'))]
             cmp_rows([[f(r)] for r in rows], 'reduce')
         elif fn == 'baseline':
             bl = [inp['more'][0][k] for k in ks]
             refs = []
             for r, b in zip(rows, bl):
-                ref, bv = ref_baseline(r, b, p.get('bl_start', -100), p.get('bl_end'), p.get('red', 'median'),
+                ref, bv = ref_baseline(r, b, p.get('bl_start', -100), p.get('bl_end'),
+                                       op_pure(p['rop']) if p.get('rop') else p.get('red', 'median'),
                                        p.get('method') == 'divisive')
                 refs.append(None if (bv == 0 and p.get('method') == 'divisive') else ref)
             cmp_rows(refs, 'baseline')
@@ -1211,6 +1333,10 @@ class C18:
         inp = self.gen_case(rng, fn, nmax, dmax, tol=(fn in ABSTRACT or rng.random() < 0.3))
         if rng.random() < 0.3:
             self.add_source(rng, inp)
+        return self.add_prelude(rng, inp, nmax, dmax)
+
+    def add_prelude(self, rng, inp, nmax, dmax):
+        fn = inp['fn']
         n, d = len(inp['rows']), inp['depth']
         p = inp['params']
         pre = []
@@ -1248,6 +1374,46 @@ class C18:
                 if fn2 in S_ONLY and rng.random() < 0.6:
                     e = {'fn': fn2, 'params': q, 'on': 'same'}
             pre.append(e)
+        inp['prelude'] = pre
+        return inp
+
+    def gen_mutating(self, rng, fn, nmax, dmax):
+        """a call of a function that takes a user-supplied operation (reduce: operation, baseline: reduce_fnc;
+        pending finding: downsample: fnc) with an operation that is allowed to modify / reorder the array it is
+        given (MUT_OPS): the result is that of the pure operation, every column of the host reads as before the call"""
+        tol = rng.random() < 0.3
+        inp = self.gen_case(rng, fn, nmax, dmax, tol=tol, d=rng.randint(min(3, dmax), dmax))
+        p = inp['params']
+        if fn == 'reduce':
+            p['op'] = rng.choice(MUT_AXIS + (MUT_NOAXIS if INCLUDE_PENDING_FINDINGS_MUTATING_OPS else []))
+        elif fn == 'baseline':
+            p['rop'] = rng.choice(MUT_AXIS + MUT_NOAXIS)
+            p['red'] = op_pure(p['rop'])
+            if rng.random() < 0.5:          # a window that holds several samples
+                d2 = len(inp['more'][0][0])
+                p['bl_start'] = rng.randint(0, max(0, d2 - 3))
+                p['bl_end'] = rng.choice([None, d2, d2 + 1])
+        elif fn == 'downsample':
+            p['fnc'] = rng.choice([k for k in MUT_AXIS if MUT_OPS[k][0] == 'mean'])
+        r = rng.random()
+        if r < 0.35:
+            self.add_source(rng, inp)
+        elif r < 0.55:
+            self.add_prelude(rng, inp, nmax, dmax)
+        return inp
+
+    def gen_after_mutating(self, rng, fn, nmax, dmax):
+        """any of the 18 functions AFTER calls of reduce with a mutating operation on its own host table (and possibly
+        other calls): the main call must be what it is in a fresh process -- the earlier calls left the table alone"""
+        inp = self.gen_case(rng, fn, nmax, dmax, tol=(fn in ABSTRACT or rng.random() < 0.3),
+                            d=rng.randint(min(3, dmax), dmax))
+        if rng.random() < 0.3:
+            self.add_source(rng, inp)
+        if rng.random() < 0.3:
+            self.add_prelude(rng, inp, nmax, dmax)
+        pre = inp.get('prelude') or []
+        for _ in range(rng.randint(1, 2)):
+            pre.insert(rng.randint(0, len(pre)), {'fn': 'reduce', 'params': {'op': rng.choice(MUT_AXIS)}, 'on': 'same'})
         inp['prelude'] = pre
         return inp
 
@@ -1332,6 +1498,14 @@ class C18:
         for fn in ALL_FNS:
             for _ in range((reps // 8) * (2 if fn in FILTERS else 1)):
                 inps.append(self.gen_history(rng, fn, nmax, dmax))
+        # user-supplied operations that may modify / reorder the array they are given (reduce, baseline; every function
+        # after such a call on its own table)
+        mut_fns = ['reduce', 'baseline'] + (['downsample'] if INCLUDE_PENDING_FINDINGS_MUTATING_OPS else [])
+        for i in range(reps // 2):
+            inps.append(self.gen_mutating(rng, mut_fns[i % len(mut_fns)], nmax, dmax))
+        for i in range(reps // 5):
+            inps.append(self.gen_after_mutating(rng, ALL_FNS[i % len(ALL_FNS)] if not quick else rng.choice(ALL_FNS),
+                                                nmax, dmax))
         # fixed boundary cases named by the property text
         for inp in BOUNDARY:
             inps.append(json.loads(json.dumps(inp)))
@@ -1493,6 +1667,23 @@ BOUNDARY = [
     {'fn': 'threshold', 'depth': 4, 'rows': [[0., 1., 1., 0.], [1., 1., 1., 1.]],
      'params': {'pred': 'gt', 'c': 0.0, 'min_length': 2}, 'src': {'s': {'dn': False, 'hist': 'shrink', 'k': 1}},
      'table': {'kind': 'lshift', 'n0': 1}},
+    # operations that are allowed to scribble on their argument: the input series reads as before
+    {'fn': 'reduce', 'depth': 7, 'rows': [[5., 1., 4., 2., 3., 9., 0.], [9., 7., 8., 6., 5., 1., 2.],
+                                          [3., N_, 1., N_, 2., 0., 7.], [2., 2., 1., 1., 0., 0., 5.]],
+     'params': {'op': 'nanmedian_ow'}, 'exact': True, 'host': {'kind': 'index', 'ps': [2, 0, 3, 1]}},
+    {'fn': 'reduce', 'depth': 5, 'rows': [[5., 1., 4., 2., 3.], [3., N_, 1., 7., 2.]],
+     'params': {'op': 'median_ow'}, 'host': {'kind': 'index', 'ps': [1, 0]}},
+    {'fn': 'reduce', 'depth': 4, 'rows': [[LCM * 4., LCM * 1., N_, LCM * 2.], [LCM * 3., LCM * 2., LCM * 1., 0.]],
+     'params': {'op': 'sort_mean'}, 'exact': True, 'src': {'s': {'dn': False, 'hist': 'shrink', 'k': 2}}},
+    {'fn': 'reduce', 'depth': 3, 'rows': [[3., 1., 2.]], 'params': {'op': 'nan_mean'}},
+    {'fn': 'baseline', 'depth': 3, 'rows': [[8., 4., 2.], [1., N_, 16.]], 'more': [[[4., 1., 2., 8.], [2., 8., N_, 1.]]],
+     'params': {'rop': 'nanmedian_ow', 'red': 'median', 'method': 'subtractive', 'bl_start': 0, 'bl_end': 3},
+     'exact': True, 'host': {'kind': 'index', 'ps': [1, 0]}},
+    {'fn': 'baseline', 'depth': 3, 'rows': [[8., 4., 2.], [1., N_, 16.]], 'more': [[[4., 1., 2., 8.], [2., 8., N_, 1.]]],
+     'params': {'rop': 'sort_mean_noaxis', 'red': 'mean', 'method': 'divisive', 'bl_start': 0, 'bl_end': 2},
+     'host': {'kind': 'index', 'ps': [1, 0]}},
+    {'fn': 'endlock', 'depth': 4, 'rows': [[3., 1., 2., N_], [N_, 9., 2., 5.]], 'host': {'kind': 'index', 'ps': [1, 0]},
+     'prelude': [{'fn': 'reduce', 'params': {'op': 'sort_median'}, 'on': 'same'}]},
 ]
 for _b in BOUNDARY:
     _b.setdefault('params', {})
